@@ -50,6 +50,8 @@ type State struct {
 	// Blocked: account 5 is on the Policy block list; Deployed: the fourth instance exists.
 	Blocked  bool `json:"blocked"`
 	Deployed bool `json:"deployed"`
+	// Destroyed: the instance destroyed itself (ContractManagement.destroy): no storage, cannot be called.
+	Destroyed [3]bool `json:"destroyed"`
 	// Bonus is the GAS minted to a principal when its NEO balance is touched
 	// for the first time in this block (taken from NEO.unclaimedGas).
 	Bonus [nPrinc]int64 `json:"bonus"`
@@ -99,15 +101,37 @@ type machine struct {
 	calls     int  // contract calls performed
 	restores  int  // snapshots restored because a callee failed
 	undone    bool // some restore actually changed the state
+	// pending: an exception is in flight (the VM keeps ONE pending exception:
+	// THROW sets it, entering a CATCH part clears it, ENDFINALLY rethrows iff it
+	// is set - so a finally part in which some throw is caught, by this script or
+	// by anything it calls, loses the exception it was entered with; the VM then
+	// faults at ENDFINALLY because no end offset was recorded).
+	pending bool
+	// handler-part statistics of hand-assembled scripts
+	hstat *hstat
+	trace map[int]bool // ids of the ops that were started (nil: not recorded)
+	light bool         // control flow only: no snapshots, no restores (used to filter generated programs)
 }
 
+// entry frame of a hand-assembled script: no contract, no storage
+const pEntry = -1
+
 func stateSig(s *State) string {
-	return fmt.Sprint(s.storLines(), s.Notes, s.Gas, s.Neo, s.Fee, s.Blocked, s.Deployed)
+	return fmt.Sprint(s.storLines(), s.Notes, s.Gas, s.Neo, s.Fee, s.Blocked, s.Deployed, s.Destroyed)
 }
 
 func (m *machine) exec(f *frame, ops []Op) outcome {
 	for i := range ops {
 		o := &ops[i]
+		if m.trace != nil {
+			m.trace[o.ID] = true
+		}
+		if f.inst == pEntry && strings.IndexByte("ENPDX~IZ", o.K) >= 0 || (o.K == '$' && o.Src == 'g' && f.inst == pEntry) {
+			panic("model: op " + string(o.K) + " is not available to an entry script")
+		}
+		if f.inst >= 0 && m.st.Destroyed[f.inst] && o.K != '!' {
+			return oFault // generated programs never continue after a self-destruction except by THROW
+		}
 		switch o.K {
 		case 'E':
 			if f.flags&fWrite == 0 {
@@ -139,6 +163,7 @@ func (m *machine) exec(f *frame, ops []Op) outcome {
 			delete(m.st.Stor[f.inst], "a")
 			f.log = append(f.log, "2")
 		case '!':
+			m.pending = true
 			return oThrown
 		case '#':
 			return oFault
@@ -185,13 +210,98 @@ func (m *machine) exec(f *frame, ops []Op) outcome {
 			m.st.Deployed = true
 			m.st.Notes = append(m.st.Notes, "MGMT:Deploy:[D]")
 			f.log = append(f.log, "<UD>")
+		case 'Z':
+			// System.Contract.Call needs ReadStates|AllowCall, destroy needs States|AllowNotify
+			if f.flags != fAll {
+				return oFault
+			}
+			m.calls++
+			m.st.Destroyed[f.inst] = true
+			m.st.Stor[f.inst] = map[string]string{}
+			m.st.Notes = append(m.st.Notes, fmt.Sprintf("MGMT:Destroy:[%c]", instNames[f.inst]))
+			f.log = append(f.log, "null")
+		case 'I':
+			// Storage.Find over the own storage (needs ReadStates); the generated programs
+			// undo every change of this storage made between opening and consumption
+			if f.flags&fRead == 0 {
+				return oFault
+			}
+			var snap []string
+			for k, v := range m.st.Stor[f.inst] {
+				snap = append(snap, fmt.Sprintf("[x%x,x%x]", k, v))
+			}
+			sort.Strings(snap)
+			if out := m.exec(f, o.Body); out != oOK {
+				return out
+			}
+			f.log = append(f.log, snap...)
+			f.log = append(f.log, "14")
+		case '(':
+			if out := m.exec(f, o.Body); out != oOK {
+				return out
+			}
+		case 'h':
+			hs := m.hstat
+			out := m.exec(f, o.Body)
+			if out == oFault {
+				return oFault
+			}
+			if out == oThrown && o.HasC {
+				m.pending = false
+				f.log = append(f.log, "71")
+				if hs != nil {
+					hs.catches++
+				}
+				if out = m.exec(f, o.H); out == oFault {
+					return oFault
+				}
+			}
+			if !o.HasF {
+				if out == oThrown {
+					return oThrown
+				}
+				break
+			}
+			f.log = append(f.log, "72")
+			if hs != nil {
+				hs.finallies++
+				if out == oThrown {
+					hs.finalliesPending++
+				}
+			}
+			switch m.exec(f, o.Fin) {
+			case oFault:
+				return oFault
+			case oThrown: // replaces whatever was pending
+				return oThrown
+			}
+			if out == oThrown {
+				if m.pending {
+					return oThrown // ENDFINALLY rethrows
+				}
+				// the pending exception was cleared inside the finally part: ENDFINALLY then
+				// jumps to the end offset, which only ENDTRY sets - the VM faults
+				if hs != nil {
+					hs.swallowed++
+				}
+				return oFault
+			}
 		case 'r':
 			if f.flags&(fRead|fCall) != fRead|fCall {
 				return oFault
 			}
+			if m.st.Destroyed[o.To] {
+				return oFault // called contract not found
+			}
 			m.calls++
-			snap := m.st.clone()
 			cf := &frame{inst: o.To, flags: f.flags & o.Flags}
+			if m.light {
+				if out := m.exec(cf, o.Body); out != oOK {
+					return out
+				}
+				break
+			}
+			snap := m.st.clone()
 			switch m.exec(cf, o.Body) {
 			case oFault:
 				return oFault
@@ -209,6 +319,7 @@ func (m *machine) exec(f *frame, ops []Op) outcome {
 			case oFault:
 				return oFault
 			case oThrown:
+				m.pending = false
 				f.log = append(f.log, "71")
 				if out := m.exec(f, o.H); out != oOK {
 					return out
@@ -264,7 +375,7 @@ func (m *machine) transfer(f *frame, tok string, from, to int, amt int64, data [
 		m.st.Bonus[dist[i]] = 0
 	}
 	m.st.Notes = append(m.st.Notes, fmt.Sprintf("%s:Transfer:[%s,%s,%d]", tok, princNames[from], princNames[to], amt))
-	if to <= pC { // a contract: onNEP17Payment(from, amount, data)
+	if to <= pC && !m.st.Destroyed[to] { // a contract: onNEP17Payment(from, amount, data)
 		m.calls++
 		if hasData {
 			pf := &frame{inst: to, flags: fAll}
@@ -279,7 +390,7 @@ func (m *machine) transfer(f *frame, tok string, from, to int, amt int64, data [
 		}
 		m.st.Gas[dist[i]] += bonus[i]
 		m.st.Notes = append(m.st.Notes, fmt.Sprintf("GAS:Transfer:[null,%s,%d]", princNames[dist[i]], bonus[i]))
-		if dist[i] <= pC {
+		if dist[i] <= pC && !m.st.Destroyed[dist[i]] {
 			m.calls++ // onNEP17Payment(null, amount, null): U does nothing
 		}
 	}
@@ -298,10 +409,21 @@ type Result struct {
 
 // runModel interprets prog on a copy of init.
 func runModel(init *State, prog []Op, committee bool) *Result {
-	m := &machine{st: init.clone(), committee: committee}
+	return runModelStat(init, prog, committee, nil)
+}
+
+// hstat counts what the handlers of a hand-assembled script did in the model.
+type hstat struct{ catches, finallies, finalliesPending, swallowed int }
+
+func runModelStat(init *State, prog []Op, committee bool, hs *hstat) *Result {
+	m := &machine{st: init.clone(), committee: committee, hstat: hs}
 	m.st.Notes = nil
 	f := &frame{inst: pA, flags: fAll}
-	out := m.exec(f, prog)
+	body := prog
+	if isHand(prog) {
+		f.inst, body = pEntry, prog[0].Body
+	}
+	out := m.exec(f, body)
 	if out == oOK {
 		// observers appended by the harness (they read through the native caches)
 		if hasOp(prog, 'F') {
